@@ -258,7 +258,11 @@ def e3_never_inline(ctx, rep):
             for p in pe.paths:
                 if p.end != "return":
                     continue
-                cnt = len([e for e in p.calls() if e.site is not None and e.site.bb == s.bb and e.site.body.path == b.path])
+                # (a job that matches on the kind of payload it was given - `enum PoolJob { Thunk, Task }`
+                # - calls exactly one of its payload sites on each path)
+                mine = {(x.bb, x.body.path) for x in ctx.prog.sites(b) if x.ck in ("std::ops::FnOnce::call_once", "std::ops::FnMut::call_mut", "std::ops::Fn::call") and "FnOnce" in ((x.fn.get("args") or [""])[0])}
+                mine.add((s.bb, b.path))
+                cnt = len([e for e in p.calls() if e.site is not None and (e.site.bb, e.site.body.path) in mine])
                 rep.check(cnt == 1, R, "job-runs-its-payload-on-every-path:" + fn, s.where, "path [%s] of the job calls the payload once" % p.describe(),
                           "path [%s] of the submitted job calls the payload %d time(s): the effect is silently skipped (or repeated)" % (p.describe(), cnt))
         may, must = ctx.lr(b).held_at(s.bb)
